@@ -786,7 +786,14 @@ func runSharded(prop, tier string, seed uint64, out *Out, nShards int, worker fu
 	for i := 0; i < nShards; i++ {
 		if errs[i] != nil {
 			fmt.Fprintf(os.Stderr, "shard %d: %v\n", i, errs[i])
-			out.Line("%s run 0 broken:shard-%d-crashed cancelled=none foreign=none", strings.ToLower(prop), i)
+			switch prop {
+			case "C02", "C03", "C18":
+				out.Line("%s run 0 broken:shard-%d-crashed cancelled=none foreign=none", strings.ToLower(prop), i)
+			default:
+				// the client (or the harness) died: for the client-level scenarios that is a crash
+				// of the process under concurrent failures
+				out.Line("%s crash shard=%d", strings.ToLower(prop), i)
+			}
 		}
 		for _, l := range strings.Split(strings.TrimRight(string(outs[i]), "\n"), "\n") {
 			if l != "" {
